@@ -100,6 +100,25 @@ fn gen_err(r: &mut Prng, uniq: &mut u32) -> ErrSpec {
 
 fn gen_items(r: &mut Prng, uniq: &mut u32, inside_results: bool, kind: usize) -> Vec<Item> {
     let mut v = Vec::new();
+    // now and then a reply with very many errors (one diagnostic per statement of a large
+    // configuration): every one of them is an error of that reply
+    if !inside_results && r.chance(1, 60) {
+        let many = *r.pick(&[63usize, 64, 65, 66, 127, 128, 129, 255, 256, 257, 300]);
+        let warnings_first = r.chance(1, 2);
+        for k in 0..many {
+            // (severities in their plain lexical form here: one unusual form among so many would
+            // decide the outcome of every such reply)
+            let want: Option<&str> = if warnings_first { Some(if k + 1 == many { "error" } else { "warning" }) } else { None };
+            let e = loop {
+                let e = gen_err(r, uniq);
+                if e.rendered.contains(&format!("<error-severity>{}</error-severity>", e.severity)) && want.map_or(true, |w| e.severity == w) {
+                    break e;
+                }
+            };
+            v.push(Item::Err(e));
+        }
+        return v;
+    }
     let n = r.range(0, 4);
     for _ in 0..n {
         let c = r.below(10);
@@ -307,6 +326,9 @@ pub fn run(cfg: &Cfg) -> i32 {
             rep.count("result_rpc_error");
         } else {
             rep.count("result_other_error");
+        }
+        if errs.len() > 60 {
+            rep.count(&format!("replies_with_more_than_60_errors:{}:{}", KINDS[kind], if is_ok { "ok".to_string() } else if let Some(d) = &rpc_errs { format!("rpc-errors({})", if d.len() == errs.len() { "all" } else { "fewer" }) } else { format!("other({})", clip(other.as_deref().unwrap_or(""), 60)) }));
         }
         let has_error = errs.iter().any(|e| e.severity == "error");
         let wit = || json!({"reply_type": KINDS[kind], "document": clip(&body, 1500), "shape": shape(&items), "case_index": idx, "seed": cfg.seed});
